@@ -596,6 +596,7 @@ CONSTANTS Source = "enum"
           Fixed = {fixed}
           MaxNonDefault = {k}
           Depths = {depths}
+          FeatCounts = {fc}
 CONSTRAINT Emit
 INVARIANT D_OnlyKnown
 INVARIANT D_PrivateMarked
@@ -605,6 +606,7 @@ CONSTANTS Source = "file"
           Fixed = {fixed}
           MaxNonDefault = 0
           Depths = {{}}
+          FeatCounts = {{}}
 CONSTRAINT Emit
 """
 
@@ -734,16 +736,18 @@ def run_property(ctx: Ctx, prop: str) -> int:
 
     # ---- design level: TLC judges the predicted site of every model of the family
     k = 2 if ctx.quick else 3
+    # quick: no optional feature, one, or all four together; thorough: every combination
+    FC = "{0, 1, 4}" if ctx.quick else "{0, 1, 2, 3, 4}"
     ctx.extra["model_switches_fixed"] = fixed_set()
     # quick: two privacies varied with the sidebar expanded (depth 3), at most one varied at depth 1 (the enumeration is the
     # dominant cost on a loaded machine); thorough: three varied at both depths
-    r = ctx.tlc("Site", CFG_ENUM.format(k=k, depths="{3}" if ctx.quick else "{1, 3}", fixed=fixed_set()), workers="auto",
+    r = ctx.tlc("Site", CFG_ENUM.format(fc=FC, k=k, depths="{3}" if ctx.quick else "{1, 3}", fixed=fixed_set()), workers="auto",
                 check=False, timeout=900, java_opts=["-Xmx8g"])
     if r.errors or (r.rc != 0 and not r.violated):
         raise MachineryError("TLC failed on Site (enum): %s rc=%s\n%s" % (r.errors[:3], r.rc, "\n".join(r.out.splitlines()[-30:])))
     recs = r.printed
     if ctx.quick:
-        r1 = ctx.tlc("Site", CFG_ENUM.format(k=1, depths="{1}", fixed=fixed_set()), workers="auto", check=True, timeout=600)
+        r1 = ctx.tlc("Site", CFG_ENUM.format(fc=FC, k=1, depths="{1}", fixed=fixed_set()), workers="auto", check=True, timeout=600)
         if r1.violated:
             r.violated.extend(r1.violated)
         recs = recs + r1.printed
@@ -762,7 +766,7 @@ def run_property(ctx: Ctx, prop: str) -> int:
     ctx.extra["design_level_invariants_violated_by_tlc"] = list(r.violated)
     ctx.extra["design_level_signatures"] = len(sigs)
     if ctx.quick:          # -coverage 1 once, on the smallest bound (it slows TLC down five-fold)
-        rc = ctx.tlc("Site", CFG_ENUM.format(k=0, depths="{1}", fixed=fixed_set()), workers="auto", check=True, coverage=True, timeout=600,
+        rc = ctx.tlc("Site", CFG_ENUM.format(fc=FC, k=0, depths="{1}", fixed=fixed_set()), workers="auto", check=True, coverage=True, timeout=600,
                      count=False)
         ctx.extra["action_coverage"] = {a: c for a, c in rc.coverage.items() if a in ("Init", "Build", "Judge")}
         if any(rc.coverage.get(a, 0) == 0 for a in ("Build", "Judge")):
@@ -885,8 +889,8 @@ def run_property(ctx: Ctx, prop: str) -> int:
                                        "error": x["error"].strip().splitlines()[0][:200]} for x in bad_runs][:10]
     res = [x for x in res if "error" not in x]
     cases = [to_case(x) for x in res]
-    small = [c for c in cases if c["predict"]]
-    big = [c for c in cases if not c["predict"]]
+    small = [c for c in cases if len(c["objs"]) <= 400]
+    big = [c for c in cases if len(c["objs"]) > 400]
     judged = tlc_validate(ctx, small, batch=60) + [x for c in big for x in tlc_validate(ctx, [c], batch=1)]
     ordered = small + big
     jobs_by_name = {x["job"]["name"]: x["job"] for x in res}
